@@ -5,6 +5,8 @@ import (
 	"fmt"
 	"os"
 	"os/exec"
+	"path/filepath"
+	"sort"
 	"strings"
 	"sync"
 )
@@ -31,7 +33,7 @@ func selfTestImpl(prop, dir string) any {
 		}
 	}
 	res := make([]mutantResult, len(ms))
-	sem := make(chan struct{}, 5) // each variant is type-checked from source (about 3 GB, 15 s)
+	sem := make(chan struct{}, 4) // each variant is type-checked from source (about 3 GB, 15 s; twice that when the second pass runs)
 	var wg sync.WaitGroup
 	for i, m := range ms {
 		wg.Add(1)
@@ -48,6 +50,9 @@ func selfTestImpl(prop, dir string) any {
 				r.Outcome = "stale"
 			case strings.Contains(text, "MUTANT-NOCOMPILE"):
 				r.Outcome = "does-not-compile"
+			case !strings.Contains(text, "MUTANT-DONE"):
+				// the analysis process did not finish (killed, out of memory, ...): not a verdict about the mutant
+				r.Outcome = "error: " + clip(text, 120)
 			default:
 				for _, l := range strings.Split(text, "\n") {
 					if strings.HasPrefix(l, "MUTANT-HIT ") {
@@ -126,6 +131,42 @@ func selfTestImpl(prop, dir string) any {
 			bres[i] = r
 		}(i, b)
 	}
+	// the kept seeded changes of this property (written by independent sub-agents, /verif/seeded/<id>/patch.diff),
+	// applied as overlays to the current tree
+	seedDirs, _ := filepath.Glob(filepath.Join(verifDir(), "seeded", prop+"-*"))
+	sort.Strings(seedDirs)
+	sres := make([]mutantResult, len(seedDirs))
+	for i, sd := range seedDirs {
+		wg.Add(1)
+		go func(i int, sd string) {
+			defer wg.Done()
+			sem <- struct{}{}
+			defer func() { <-sem }()
+			r := mutantResult{ID: filepath.Base(sd), Why: "seeded change by an independent sub-agent (breaks the property, compiles, passes the existing tests)", Expect: "any rule of " + prop}
+			out, _ := exec.Command(exe, "-property", prop, "-dir", dir, "-mutant-patch", filepath.Join(sd, "patch.diff")).CombinedOutput()
+			text := string(out)
+			switch {
+			case strings.Contains(text, "MUTANT-STALE"):
+				r.Outcome = "stale"
+			case strings.Contains(text, "MUTANT-NOCOMPILE"):
+				r.Outcome = "does-not-compile"
+			case strings.Contains(text, "MUTANT-HIT "):
+				r.Outcome = "detected"
+				for _, l := range strings.Split(text, "\n") {
+					if strings.HasPrefix(l, "MUTANT-HIT ") {
+						if f := strings.Fields(l); len(f) >= 3 && len(r.Hits) < 3 {
+							r.Hits = append(r.Hits, f[2])
+						}
+					}
+				}
+			case strings.Contains(text, "MUTANT-DONE"):
+				r.Outcome = "MISSED"
+			default:
+				r.Outcome = "error: " + clip(text, 120)
+			}
+			sres[i] = r
+		}(i, sd)
+	}
 	// self-consistency of the second pass: the rules evaluated on the normal form of the unchanged sources
 	nf := mutantResult{ID: prop + "-normal-form", Why: "all rules of the property evaluated on the inlined normal form of the unchanged sources (what the second pass falls back on after a refactor)", Expect: "no alarm"}
 	wg.Add(1)
@@ -159,6 +200,11 @@ func selfTestImpl(prop, dir string) any {
 		bcnt[r.Outcome]++
 		fmt.Printf("benign %s %s (%s) %v\n", r.ID, r.Outcome, r.Why, r.Hits)
 	}
+	scnt := map[string]int{}
+	for _, r := range sres {
+		scnt[r.Outcome]++
+		fmt.Printf("seeded %s %s %v\n", r.ID, r.Outcome, r.Hits)
+	}
 	for _, r := range res {
 		cnt[r.Outcome]++
 		fmt.Printf("selftest %s %s (%s)\n", r.ID, r.Outcome, r.Expect)
@@ -166,5 +212,6 @@ func selfTestImpl(prop, dir string) any {
 	return map[string]any{"mutants": len(res), "outcomes": cnt, "results": res,
 		"behaviour_preserving_edits": len(bres), "behaviour_preserving_outcomes": bcnt, "behaviour_preserving_results": bres,
 		"normal_form_self_consistency": nf,
+		"seeded_changes":               len(sres), "seeded_outcomes": scnt, "seeded_results": sres,
 		"method": "each mutant is a source edit applied via packages.Config.Overlay to the current /repo tree and analysed in its own process; it must type-check and make the named rule instance fire"}
 }
